@@ -3,7 +3,7 @@
 #   ./run.sh setup
 #   ./run.sh check <property> <quick|thorough>
 #   ./run.sh replay <replay-file>
-#   ./run.sh selftest determinism|instrumenter
+#   ./run.sh selftest determinism|instrumenter|constructs|corpus
 cd "$(dirname "$0")" || exit 2
 export GOFLAGS=-mod=mod GOPROXY=off GOSUMDB=off GOTOOLCHAIN=local
 case "${1:-}" in
